@@ -151,4 +151,55 @@ theorem fineVerts_coarse (M : Mesh) (t : Nat) (ht : t < M.verts.length) : (fineV
   have hfv : fineVerts M = M.verts ++ (List.range' 1 M.dim).flatMap (vertBlock M) := rfl
   rw [hfv, List.getElem?_append_left ht]
 
+/-- the refined node's part is exactly the `StandardRefinery<MeshPart>` of the node's part: the tree takes no
+    shortcut, whatever the dimension signature of the part -/
+theorem refineNode_part (M : Mesh) (n n' : PartNode) (h : refineNode M n = some n') :
+    refinePart M n.part = some n'.part := by
+  unfold refineNode at h
+  cases hp : refinePart M n.part with
+  | none => rw [hp] at h; simp at h
+  | some p' =>
+    rw [hp] at h
+    simp only at h
+    split at h
+    · simp at h
+    · simp only [Option.some.injEq] at h
+      rw [← h]
+
+/-- every child of the refined node is the `StandardRefinery<MeshPart>` of a child of the node against the coarse
+    parent PART -/
+theorem refineNode_children (M : Mesh) (n n' : PartNode) (h : refineNode M n = some n') :
+    ∀ ch' ∈ n'.children, ∃ ch ∈ n.children, refinePart (n.part.asParent M.kind M.dim) ch = some ch' := by
+  unfold refineNode at h
+  cases hp : refinePart M n.part with
+  | none => rw [hp] at h; simp at h
+  | some p' =>
+    rw [hp] at h
+    simp only at h
+    split at h
+    · simp at h
+    · simp only [Option.some.injEq] at h
+      rw [← h]
+      intro ch' hch'
+      simp only [List.mem_filterMap, List.mem_map, id] at hch'
+      obtain ⟨o, ⟨ch, hch, ho⟩, hoc⟩ := hch'
+      subst hoc
+      refine ⟨ch, hch, ?_⟩
+      split at ho
+      · simp at ho
+      · exact ho
+
+/-- a part without topology: the refined target set of EVERY dimension is the simple target refinement -/
+theorem refinePart_simple (M : Mesh) (P P' : Part) (ht : P.topo = none) (h : refinePart M P = some P') (c : Nat)
+    (hc : c ≤ M.dim) : P'.target c = simpleTargets M P c := by
+  unfold refinePart at h
+  rw [ht] at h
+  simp only [Option.some.injEq] at h
+  rw [← h]
+  unfold Part.target
+  simp only
+  rw [List.getD_eq_getElem?_getD, List.getElem?_map, List.getElem?_range (by omega)]
+  rfl
+
+
 end FeatModel.Refine
